@@ -11,6 +11,8 @@ CLAUSES = {
     6: "unannotated error not reported with the generic text",
     7: "SMTPCode/SMTPEnchCode pair incoherent",
     8: "SMTPCode class 4 <-> IsTemporary disagrees",
+    12: "queue: the class of the status recorded for a failed recipient disagrees with the decision taken (retried <-> 4yz; given up before the last permitted try <-> 5yz)",
+    13: "queue: no status recorded for a failed recipient",
     11: "reject directive: default enhanced code class differs from the basic code class",
     101: "msgpipeline `reject 4yz` (code only) yields 4yz with enhanced code 5.7.0 (internal/msgpipeline/config.go:parseRejectDirective; the existing test TestMsgPipelineCfg pins this)",
 }
@@ -57,7 +59,8 @@ def literals(ctx):
 
 def run(ctx):
     ctx.trusted = TRUSTED
-    ok, detail = core.coq_build(ctx, ["theories/Props/C16.vo", "theories/Err/Corr.vo", "theories/Err/CorrReject.vo"])
+    ok, detail = core.coq_build(ctx, ["theories/Props/C16.vo", "theories/Err/Corr.vo", "theories/Err/CorrReject.vo",
+                                     "theories/Err/QueueCorr.vo"])
     ctx.oblige("coq build of Props/C16.vo and its dependencies", ok, detail)
     core.audit(ctx)
     if ok:
@@ -65,15 +68,25 @@ def run(ctx):
     literals(ctx)
     if not ok:
         return
+    gens = {}
+    for pkg in ("smtp", "queue"):
+        gens[pkg] = os.path.join(ctx.work, "errgen_%s_test.go" % pkg)
+        open(gens[pkg], "w").write(open(os.path.join(core.VERIF, "harness/c16/errgen.go.tmpl")).read().replace("@PKG@", pkg))
     ov = core.write_overlay(ctx, {
         "internal/target/queue/zz_verif_export.go": "harness/queue/export.go",
         "internal/endpoint/smtp/zz_verif_c16_test.go": "harness/c16/c16_test.go",
+        "internal/endpoint/smtp/zz_verif_c16gen_test.go": gens["smtp"],
+        "internal/target/queue/zz_verif_c16gen_test.go": gens["queue"],
+        "internal/target/queue/zz_verif_c16q_test.go": "harness/c16/c16_queue_test.go",
         "internal/endpoint/smtp/zz_verif_c16r_test.go": "harness/c16/c16_reject_test.go",
         "internal/msgpipeline/zz_verif_export.go": "harness/msgpipeline/export.go",
-    }, {"internal/endpoint/smtp": "smtp"})
+    }, {"internal/endpoint/smtp": "smtp", "internal/target/queue": "queue"})
     n = 400 if ctx.tier == "quick" else 12000
     core.generic_corr(ctx, overlay=ov, pkg="internal/endpoint/smtp", run="TestVerif_C16", n=n,
                       corr_module="Err.Corr", clause_names=CLAUSES, name="errtrees")
+    core.generic_corr(ctx, overlay=ov, pkg="internal/target/queue", run="TestVerif_C16Queue",
+                      n=300 if ctx.tier == "quick" else 4000,
+                      corr_module="Err.QueueCorr", clause_names=CLAUSES, name="queue")
     core.generic_corr(ctx, overlay=ov, pkg="internal/endpoint/smtp", run="TestVerif_C16Reject", n=0,
                       corr_module="Err.CorrReject", clause_names=CLAUSES, name="reject")
     ctx.coverage["rule"] = ("error trees of depth 1-4 over 8 constructors generated from VERIF_SEED: 70% well-annotated "
